@@ -35,7 +35,7 @@ ASSUMPTIONS = [
 ]
 FLOORS = {"quick": {"sessions": 5000, "steps": 60000, "steps:NO-outcomes": 6000,
                     "emulated-renames": 1000, "segmented-sessions": 2000,
-                    "socketpair-sessions": 150, "reconnects": 1500,
+                    "socketpair-sessions": 150, "reconnects": 1500, "sessions-on-a-slow-link": 800,
                     "reconnects-refused": 500},
           "thorough": {"sessions": 500000, "steps": 6000000, "steps:NO-outcomes": 600000,
                        "emulated-renames": 90000, "segmented-sessions": 200000,
@@ -135,6 +135,10 @@ def run_session(rng, res: Result, idx, real_socket=False):
         res.count("socketpair-sessions")
     else:
         sess = mslab.Session(srv, seg)
+        if segmented and rng.random() < 0.5:
+            # slow but steady link (virtual time): seconds pass with every recv(), no time-out
+            sess.seconds_per_recv = rng.choice([0.3, 1.0, 3.0])
+            res.count("sessions-on-a-slow-link")
     try:
         _run_steps(rng, res, idx, sess, srv, conv, names, version, segmented, real_socket)
     finally:
